@@ -101,6 +101,7 @@ type rCase struct {
 	cfg            rCfg
 	build          func(wrap func(api.RateFunction) api.RateFunction) (*api.Trigger, error)
 	bodyMaxUs      int
+	bodyFixedUs    int // every body takes this long
 	failEvery      int
 	mixNames       bool   // consecutive runs on one metrics instance use different scenario names
 	scnName        string // scenario name of this run ("" = scn)
@@ -575,6 +576,8 @@ func runOne(c *ctx, rc rCase, m *metrics.Metrics) rTrace {
 				<-release
 			} else if os.Getenv("VERIF_FAST") != "" {
 				time.Sleep(200 * time.Microsecond)
+			} else if rc.bodyFixedUs > 0 {
+				time.Sleep(time.Duration(rc.bodyFixedUs) * time.Microsecond)
 			} else if rc.bodyMaxUs > 0 {
 				time.Sleep(time.Duration((id*7919+seed*31)%int64(rc.bodyMaxUs)) * time.Microsecond)
 			}
@@ -1182,6 +1185,26 @@ func buildCases(c *ctx) []rCase {
 		rsi := constantCase("interrupt-during-failing-setup", "5/10ms", 10*ms, 2, 0, 2000*ms, "none")
 		rsi.cfg.SetupFail, rsi.cfg.SetupMode, rsi.cfg.SetupUs, rsi.cfg.CancelUs = true, []string{"fail", "failnow", "panic-error"}[c.rng.Intn(3)], 70*ms, 20*ms
 		add(viaCLI(rsi, "constant", "-r", "5/10ms", "--distribution", "none"))
+		// a rate per a FRACTIONAL number of units ticks at exactly that interval (2/2.9ms is not 2/2ms)
+		for _, api := range []bool{false, true} {
+			rf := constantCase("fractional-interval", "2/2.9ms", 2900, 4, 0, 300*ms, "none")
+			if api {
+				add(rf)
+			} else {
+				add(viaCLI(rf, "constant", "-r", "2/2.9ms", "--distribution", "none"))
+			}
+		}
+		// a limit far below the concurrency, slow iterations, several requests per tick: the surplus requests cannot start
+		// solely because of the limit - nothing is reported dropped
+		for _, api := range []bool{false, true} {
+			rl := constantCase("limit-below-concurrency-slow", "3/100ms", 100*ms, 10, 2, 2000*ms, "none")
+			rl.bodyFixedUs = 450 * int(ms)
+			if api {
+				add(rl)
+			} else {
+				add(viaCLI(rl, "constant", "-r", "3/100ms", "--distribution", "none"))
+			}
+		}
 		rdrop := constantCase("drops", "5/20ms", 20*ms, 1, 0, 300*ms, "none")
 		rdrop.bodyMaxUs = 30000
 		add(viaCLI(rdrop, "constant", "-r", "5/20ms", "--distribution", "none"))
